@@ -232,6 +232,19 @@ Section Scale.
     split; [exact F|]. unfold E_cat_eval. rewrite w_eq. exact D.
   Qed.
 
+  (* the computed value stays below 14 * 2^E *)
+  Theorem catmull_eval_bound v1 v2 v3 v4 t :
+    coordU 1 v1 -> coordU 1 v2 -> coordU 1 v3 -> coordU 3 v4 -> fin t -> 0 <= B2R t <= 1 ->
+    Rabs (B2R (catmull_eval (catmull_coord v1 v2 v3 v4) t)) <= 14 * U.
+  Proof.
+    intros C1 C2 C3 C4 Ft Ht.
+    pose proof (catmull_coord_near v1 v2 v3 v4 C1 C2 C3 C4) as HC.
+    destruct (catmull_coord v1 v2 v3 v4) as [[[x1 x2] x3] x4].
+    destruct (catmull_coord_g real_ops (B2R v1) (B2R v2) (B2R v3) (B2R v4)) as [[[r1 r2] r3] r4].
+    destruct HC as (X1 & X2 & X3 & X4).
+    destruct (catmull_eval_near x1 x2 x3 x4 r1 r2 r3 r4 t X1 X2 X3 X4 Ft Ht) as (_ & Bd & _). exact Bd.
+  Qed.
+
   (* ---------- the polynomial is Lipschitz on [0, 1] ---------- *)
 
   Lemma catmull_lipschitz r1 r2 r3 r4 a b :
